@@ -605,6 +605,12 @@ func (e *env) opSettle(k int) {
 		e.opGC(0, 0)
 	}
 	for i := 0; i < k; i++ {
+		// epochs keep advancing: an object that became collectable inside an epoch that collectExpiredObjects has
+		// already marked as processed (e.g. its lock was garbage-collected later in the same pass) is looked at
+		// again only in the next epoch
+		if i%3 == 2 {
+			e.opEpoch()
+		}
 		e.opGC(0, 0)
 	}
 	e.do("ExpectClean", nil, "ok")
